@@ -195,7 +195,7 @@ func extractorLoopRule(p *Prog, r *Report, e *engine, rule string) {
 	}
 	key := fnKey(e.handleFile)
 	for g, n := range have {
-		if _, audited := want[g]; !audited && n > 0 {
+		if _, audited := want[g]; !audited && n > 0 && !subsumedDecision(g, want, have) {
 			r.Fail(rule, key+":extractor-loop:new:"+short(g, 120), p.Pos(e.handleFile.Pos()), "a decision that keeps the current file from an extractor (or from all remaining extractors) is not among the audited ones: "+g+" — e.g. leaving the loop after one extractor failed to open the file means the other extractors that require it never see it and are reported as succeeded")
 		} else {
 			r.OK(rule, key+":extractor-loop:"+short(g, 120), p.Pos(e.handleFile.Pos()), "audited decision")
@@ -250,6 +250,82 @@ func frozenFnSkips(p *Prog, r *Report, rule, site string, fn *ssa.Function, prog
 	frozenCompare(p, r, rule, site, fn, fnSkips(fn, progress), want, learnTag, why)
 }
 
+// subsumedDecision: x is a conjunction whose conjuncts include all conjuncts of a decision that is
+// audited and still present — `A && B` next to an audited `A` that still skips: whenever the new
+// decision holds the audited one holds too, so it leaves out nothing the audited one does not.
+// (`if err != nil { if fatal {return err}; return nil }` ≡ `switch { case err != nil && fatal: …; case err != nil: … }`.)
+func subsumedDecision(x string, audited map[string]int, present map[string]int) bool {
+	pre := ""
+	xs := x
+	if strings.HasPrefix(xs, "exit: ") {
+		pre, xs = "exit: ", strings.TrimPrefix(xs, "exit: ")
+	}
+	parts := strings.Split(xs, " && ")
+	if len(parts) < 2 {
+		return false
+	}
+	have := map[string]bool{}
+	for _, c := range parts {
+		have[c] = true
+	}
+	for a := range audited {
+		if present[a] == 0 || !strings.HasPrefix(a, pre) || (pre == "" && strings.HasPrefix(a, "exit: ")) {
+			continue
+		}
+		as := strings.Split(strings.TrimPrefix(a, pre), " && ")
+		if len(as) >= len(parts) {
+			continue
+		}
+		all := true
+		for _, c := range as {
+			if !have[c] {
+				all = false
+			}
+		}
+		if !all {
+			continue
+		}
+		// and structurally: when the new conjunction does not hold, the very next test is the audited
+		// decision (the next case of the same switch) — an audited test made somewhere else, under
+		// other conditions, says nothing about this place
+		for _, sx := range skipSites[strings.TrimPrefix(x, pre)] {
+			if len(sx.b.Succs) != 2 {
+				continue
+			}
+			t := sx.b.Succs[1-sx.k]
+			for hop := 0; hop < 4 && len(t.Succs) == 1 && len(t.Instrs) == 1; hop++ {
+				t = t.Succs[0]
+			}
+			for _, sa := range skipSites[strings.TrimPrefix(a, pre)] {
+				if sa.b == t || (blockIf(t) != nil && sa.b.Parent() == t.Parent() && impliesBlock(t, sa.b)) {
+					return true
+				}
+			}
+		}
+	}
+	return false
+}
+
+// impliesBlock: the decision block sa is reached from t through the short-circuit chain that starts
+// in t (t tests the first conjunct of the decision rendered at sa).
+func impliesBlock(t, sa *ssa.BasicBlock) bool {
+	for hop := 0; hop < 4; hop++ {
+		if t == sa {
+			return true
+		}
+		if len(t.Succs) != 2 {
+			return false
+		}
+		// follow the edge that stays inside the chain (the one that does not leave to a block with several predecessors)
+		next := t.Succs[0]
+		if len(next.Preds) > 1 {
+			next = t.Succs[1]
+		}
+		t = next
+	}
+	return false
+}
+
 func frozenCompare(p *Prog, r *Report, rule, site string, fn *ssa.Function, got, want []string, learnTag, why string) {
 	if os.Getenv("SCALINT_LEARN") != "" {
 		for _, g := range got {
@@ -266,7 +342,7 @@ func frozenCompare(p *Prog, r *Report, rule, site string, fn *ssa.Function, got,
 		h[x]++
 	}
 	for x, n := range h {
-		if _, audited := w[x]; !audited && n > 0 {
+		if _, audited := w[x]; !audited && n > 0 && !subsumedDecision(x, w, h) {
 			r.Fail(rule, site+":new:"+short(x, 120), p.Pos(fn.Pos()), why+" — unaudited decision: "+x)
 		} else {
 			r.OK(rule, site+":"+short(x, 120), p.Pos(fn.Pos()), "audited decision")
